@@ -28,7 +28,7 @@ def make_jobs(ctx: Ctx, count: int) -> list[dict]:
         n = rng.choice([2, 3, 3, 4, 4, 5] + ([] if ctx.quick else [6, 7, 8]))
         kind = "xy" if i % 5 == 4 else "rydberg"
         wf = scen.WF_KINDS[i % len(scen.WF_KINDS)]
-        phase = scen.PHASE_KINDS[(i // 2) % 3]
+        phase = scen.PHASE_KINDS[(i // 2) % 4]
         dmm = scen.DMM_KINDS[(i // 3) % 3] if kind == "rydberg" else "none"
         slm = scen.SLM_KINDS[(i // 5) % 2]
         dtk = scen.DT_KINDS[(i // 4) % 4]
@@ -100,6 +100,18 @@ PROPERTY Terminates
             ctx.notes.append(f"MPSRun model {mode} N={n} K={k} violates {res['violated']}")
 
 
+def frozen_between(job: dict, perm: list) -> bool:
+    """SLM mask realised as a huge DMM detuning, with a masked atom sitting between two unmasked atoms in chain order."""
+    st = job["strata"]
+    if st.get("slm", "none") == "none" or st.get("dmm", "none") == "none":
+        return False
+    ids = [f"q{i}" for i in range(len(job["seq"]["coords"]))]
+    masked = set(job["seq"].get("slm") or [])
+    chain = [ids[p] in masked for p in perm] if perm else [q in masked for q in ids]
+    free = [i for i, m in enumerate(chain) if not m]
+    return len(free) >= 2 and any(chain[i] for i in range(free[0], free[-1]))
+
+
 def evaluate(ctx: Ctx, jobs: list[dict], results: list[dict], label: str) -> None:
     traces, meta = [], {}
     worst = 0.0
@@ -128,6 +140,11 @@ def evaluate(ctx: Ctx, jobs: list[dict], results: list[dict], label: str) -> Non
             job, r = meta[tr["id"]]
             nonid = r["perm"] != sorted(r["perm"])
             key = f"{label}:{v[2]}" + (":nonidentity-permutation" if nonid and v[2] in ("drive-row-differs-from-reference-row-in-site-order", "result-values-differ-from-reference") else "")
+            if v[2] == "result-values-differ-from-reference" and frozen_between(job, r["perm"]):
+                # two-site TDVP cannot carry entanglement across atoms frozen by the SLM detuning: their bonds stay at dimension 1
+                # (or at rounding-noise level) and the driven atoms evolve in mean field, whatever dt and precision are.  The
+                # finding is identified by this input class; every other clause and every other input still alarms.
+                key = f"{label}:tdvp-projection-error:slm-frozen-atoms-between-interacting-atoms"
             ctx.violation(key, f"trace of a real emu-mps run rejected by MPSRunTrace at event {v[1]}: {v[2]} (strata {job['strata']}, perm {r['perm']}, {r.get('why')})",
                           {"job": job, "event_index": v[1], "margins": r["margins"], "why": r.get("why"), "perm": r["perm"]})
     ctx.coverage[f"worst_margin_{label}"] = round(worst, 4)
@@ -140,8 +157,12 @@ def run(ctx: Ctx) -> None:
         "precision budget for values: 5 * steps * 2(N-1) * precision (+1e-6) plus 3*|emu(dt)-emu(dt/2)| capped at 2e-3 (TDVP projection error is dt-dependent, not precision-bounded); variance / second moment additionally 4e-5*||H||^2 because H@H is compressed at the package default precision",
         "strata restricted to dt >= 1 and no evaluation time inside the last ns while the C22 defect is unrepaired",
     ]
-    n = ctx.pick(64, 900)
+    n = ctx.pick(64, 600)
     jobs = make_jobs(ctx, n)
+    # committed probe of the known TDVP projection-error finding (so it is reported on every run, whatever the seed draws)
+    import json
+    import os
+    jobs.append(json.load(open(os.path.join(os.path.dirname(os.path.dirname(os.path.abspath(__file__))), "data", "c02_frozen_probe.json"))))
     results = pmap(mps_worker, jobs)
     evaluate(ctx, jobs, results, "mps")
     model(ctx, "tdvp")
